@@ -180,10 +180,14 @@ impl Driver for HubOp {
                     let mint = minted.unwrap_or(0);
                     c.insert("conv_sb#C05.fee_gate_cap_no_overshoot".to_string(), mint <= m0 && (rb < thr || mint == m0) && m0 - mint.min(m0) <= mulf(m0, fee_rate) && (!(rb < E18) || ab + v <= sb + mint + qb + 2));
                     c.insert("conv_sb#C02.books_conserved".to_string(), b1 + s1 == ab + as_);
+                    // C03: the coin value floor(tokens x stSei rate) is re-priced at the bSei rate; rounding favours the pool; nothing for a zero value
+                    c.insert("conv_sb#C03.reprices_value".to_string(), mint <= m0 && (rb < thr || mint == m0) && (v > 0 || mint == 0));
                 }
                 "convert_bs" => {
                     c.insert("conv_bs#C05.no_overshoot".to_string(), !(rb < E18) || b1 <= (sb - amount) + qb + 2);
                     c.insert("conv_bs#C02.books_conserved".to_string(), b1 + s1 == ab + as_);
+                    { let v = mulf(amount, rb); let m0 = if rs > 0 { Uint128::new(v).multiply_ratio(E18, rs).u128() } else { 0 };
+                      c.insert("conv_bs#C03.reprices_value".to_string(), minted.unwrap_or(0) <= m0 && (rb < thr || minted.unwrap_or(0) == m0) && (v > 0 || minted.unwrap_or(0) == 0)); }
                     c.insert("conv_bs#C04.no_dilution_stsei".to_string(), uer(s1, ss + minted.unwrap_or(0) + qs) + 0 >= rs || rs == E18 && as_ == 0);
                 }
                 "check_slashing" => {
